@@ -204,4 +204,22 @@ def rule_dt(repo):
 
 
 def rules(repo, tier):
-    return [rule_layout(repo, 'C03.LT', lt_entries(), floor=16), rule_acc(repo), rule_id(repo), rule_sb(repo), rule_dt(repo)]
+    return [rule_layout(repo, 'C03.LT', lt_entries(), floor=16), rule_acc(repo), rule_id(repo), rule_sb(repo), rule_dt(repo), rule_nosign(repo)]
+
+
+def rule_nosign(repo):
+    res = RuleResult('C03.NOSIGN', 'no group operation multiplies its result by a factor that is exactly zero somewhere (torch.sign / .sign(): '
+                     'sign(0) = 0 collapses the unit quaternion to zero; the library\'s pm() maps 0 to +1): results remain valid group elements', floor=16)
+    for G in GROUPS:
+        for op in ('Mul', 'Inv', 'Act', 'Act4'):
+            f = repo.func(OP, '%s_%s.forward' % (G, op))
+            rets = returns_of(f.node)
+            v = inline_straight(f.node, upto=rets[0]).value(rets[0].value)
+            bad = [n for n in ast.walk(v) if isinstance(n, ast.Call) and (dotted(n.func) in ('torch.sign', 'torch.sgn') or
+                                                                           (isinstance(n.func, ast.Attribute) and n.func.attr in ('sign', 'sgn')
+                                                                            and not (dotted(n.func) or '').startswith('torch.')))]
+            res.inst({'function': f.fq, 'vanishing_sign_factors': len(bad)}, f.fq)
+            for b in bad:
+                res.add(Finding('C03.NOSIGN', f, '%s_%s.forward scales its result by `%s`, which is 0 when its argument is exactly 0: the '
+                                'returned element degenerates (zero quaternion) for such inputs' % (G, op, src(b)[:50]), construct='sign factor ' + src(b)[:50]))
+    return res
